@@ -73,10 +73,10 @@ def task_verlet(arg):
     offsets = [np.array([[1.0, 0.0, 0.0], [0.0, -1.0, 0.5], [0.3, 0.3, -1.0]]), np.array([[-0.5, 1.0, 0.2], [1.0, 1.0, 1.0], [0.0, 0.0, 0.0]]), np.zeros((3, 3))]
     for masses, off, zs in itertools.product([1.0, 63.5, [1.0, 63.5, 12.0]], offsets, (1.0, -1.7)):
         # (a) reversibility
-        for dt, steps in itertools.product(arg["dts"], arg["steps"]):
+        for dt, steps, ac in itertools.product(arg["dts"], arg["steps"], (True, False)):
             atoms = start_atoms(pot, masses, off, zs)
             x0, p0 = atoms.positions.copy(), atoms.get_momenta().copy()
-            integ = Verlet(dt=dt, max_steps=steps)
+            integ = Verlet(dt=dt, max_steps=steps, apply_constraints=ac)
             ctx = Ctx(atoms)
             integ.integrate(ctx)
             x1 = atoms.positions.copy()
@@ -87,7 +87,7 @@ def task_verlet(arg):
             moved = np.abs(x1 - x0).max()
             ex = np.abs(atoms.positions - x0).max() / max(1e-12, np.abs(x0).max())
             ep = np.abs(-atoms.get_momenta() - p0).max() / max(1e-12, np.abs(p0).max())
-            where = f"pot={pot} masses={masses} dt={dt}fs steps={steps}"
+            where = f"pot={pot} masses={masses} dt={dt}fs steps={steps} apply_constraints={ac}"
             if moved == 0:
                 V("C14/verlet/does-not-move", where)
             if ex > 1e-9 or ep > 1e-9:
@@ -98,7 +98,7 @@ def task_verlet(arg):
             for d, n in ((dt, arg["n_order"]), (dt / 2, 2 * arg["n_order"])):
                 atoms = start_atoms(pot, masses, off, zs)
                 e0 = atoms.get_total_energy()
-                integ = Verlet(dt=d, max_steps=1)
+                integ = Verlet(dt=d, max_steps=1, apply_constraints=(dt != arg["dts_order"][0]))
                 ctx = Ctx(atoms)
                 worst = 0.0
                 for _ in range(n):
@@ -132,9 +132,13 @@ def task_mb(arg):
         for masses in ([1.0, 1.0, 1.0], [1.0, 63.5, 197.0]):
             for rot in range(len(qs)):
                 q = [qs[(rot + j) % len(qs)] for j in range(9)]
-                for forced in (False, True):
+                for forced, cons in ((False, None), (True, None), (True, "fixatoms")):
                     atoms = Atoms("Ar3", positions=[[0, 0, 0], [2, 0, 0], [0, 2, 1]], cell=[9] * 3)
                     atoms.set_masses(masses)
+                    if cons:  # constraints remove degrees of freedom
+                        from ase.constraints import FixAtoms
+
+                        atoms.set_constraint(FixAtoms(indices=[1]))
                     ctx = Ctx(atoms, QuantileRNG(q + [0.5] * 9), T)
                     maxwell_boltzmann_distribution(ctx, forced=forced)
                     counters["evaluations"] += 1
@@ -143,7 +147,10 @@ def task_mb(arg):
                     kT = units.kB * T
                     want = z * np.sqrt(np.array(masses) * kT)[:, None]
                     p = atoms.get_momenta()
-                    where = f"T={T} masses={masses} forced={forced}"
+                    where = f"T={T} masses={masses} forced={forced} constraint={cons}"
+                    if cons:
+                        want = want.copy()
+                        want[1] = 0.0
                     if not forced:
                         if not np.allclose(p, want, rtol=1e-12, atol=0):
                             V("C14/momenta/not-normal-times-sqrt(m kT)", f"momenta {js(p[0])} vs z*sqrt(m kT) {js(want[0])}; {where}")
